@@ -114,6 +114,17 @@ pub fn dispatch(t: &[&str]) -> String {
         // hsplit <chunk_size> <hex> [file]: the byte-level NAL batches hevc_parser hands over (parse_nals off):
         // through a cursor, or (`file`) through process_file and its BufReader
         "hsplit" => hevc_split(t),
+        // madvrinfo <hex>: what the madvr_parse crate derives from a measurement file (inputs of the generator model):
+        // flags, maxcll, maxfall, frame count, per scene start:length:round(max_pq*4095):round(avg_pq*4095), per frame round(target_pq*4095)
+        "madvrinfo" => match madvr_parse::MadVRMeasurements::parse_measurements(&unhex(t[1])) {
+            Ok(m) => format!(
+                "ok {} {} {} {} {} {}",
+                m.header.flags, m.header.maxcll, m.header.maxfall, m.frames.len(),
+                if m.scenes.is_empty() { "-".to_string() } else { m.scenes.iter().map(|s| format!("{}:{}:{}:{}", s.start, s.length, (s.max_pq * 4095.0).round() as u16, (s.avg_pq * 4095.0).round() as u16)).collect::<Vec<_>>().join(",") },
+                if m.frames.is_empty() { "-".to_string() } else { m.frames.iter().map(|f| format!("{}", (f.target_pq * 4095.0).round() as u16)).collect::<Vec<_>>().join(",") }
+            ),
+            Err(e) => format!("err {}", e.to_string().replace(char::is_whitespace, "_")),
+        },
         // rpufile <chunk_size> <hex>: write the bytes to a temp file and read it with parse_rpu_file
         "rpufile" => {
             let cs = t[1];
